@@ -20,6 +20,8 @@ for line in open(res):
     det = [d for d in det.split() if d != 'none']
     sid = f'{prop}-{label}{mk}'
     dst = os.path.join(root, sid)
+    if os.path.exists(os.path.join(dst, 'meta.json')) and '--force' not in sys.argv:
+        continue  # kept earlier (its meta.json may carry hand-written notes)
     os.makedirs(dst, exist_ok=True)
     for f in ('patch.diff', 'demo.rs', 'notes.md'):
         shutil.copy(os.path.join(src, f), os.path.join(dst, f))
